@@ -36,7 +36,7 @@ EXTENDS Integers, Sequences, FiniteSets, TLC
 
 CONSTANTS W,            \* vector width in floats: 8 (AVX), 4 (SSE)
           U,            \* unroll factor of the main vector loop: 4 (euclidean), 2 (manhattan, cosine)
-          MaxLen,       \* lengths 1..MaxLen
+          MinLen, MaxLen,   \* lengths MinLen..MaxLen
           VecBound, TailExit, TailOddFirst
 
 VARIABLES len, pc, i, t, todo, plan
@@ -49,7 +49,7 @@ Push(p, ph, at, w) ==
   THEN [p EXCEPT ![Len(p)].n = @ + 1]
   ELSE Append(p, [ph |-> ph, at |-> at, w |-> w, n |-> 1])
 
-Init == /\ len \in 1..MaxLen
+Init == /\ len \in MinLen..MaxLen
         /\ pc = "entry" /\ i = 0 /\ t = 0 /\ todo = 0 /\ plan = <<>>
 
 Entry == /\ pc = "entry"
@@ -104,7 +104,7 @@ Spec == Init /\ [][Next]_vars /\ WF_vars(Entry \/ Unrolled \/ Single \/ HSum \/ 
 -----------------------------------------------------------------------------
 End(r) == r.at + r.w * r.n
 
-TypeOK == /\ len \in 1..MaxLen /\ i \in Nat /\ t \in Nat /\ todo \in Nat
+TypeOK == /\ len \in MinLen..MaxLen /\ i \in Nat /\ t \in Nat /\ todo \in Nat
           /\ pc \in {"entry", "unrolled", "single", "hsum", "tailodd", "tailpair", "done"}
 
 \* no load touches an index outside [0, len) - in every state, i.e. also transiently
